@@ -16,6 +16,7 @@ import (
 	"reflect"
 	"strings"
 	"testing"
+	"time"
 
 	"github.com/go-kit/log"
 	frrv1beta1 "github.com/metallb/frr-k8s/api/v1beta1"
@@ -274,14 +275,25 @@ func TestVerif_C15rec(t *testing.T) {
 		res.Replayed = true
 		return
 	}
-	depth := 4
+	// the bound is iterated: the thorough tier completes 5 operations, then goes for 6 within what is left of its budget
+	depths := []int{4}
 	if verifrt.Thorough() {
-		depth = 6
+		depths = []int{5, 6}
 	}
+	depth := depths[0]
 	cat := bgpfrr.VerifSessionCatalogue()
 	work := 0
+	deadline := time.Now().Add(verifrt.Budget())
+	cut := false
 	var rec func(ops []c15recOp, readable []string, open map[int]bool, sinceRec bool)
 	rec = func(ops []c15recOp, readable []string, open map[int]bool, sinceRec bool) {
+		if cut || time.Now().After(deadline) {
+			if !cut {
+				cut = true
+				res.NotExhaustive(fmt.Sprintf("resource part: time budget reached inside the enumeration of sequences of %d session operations (all shorter sequences that are prefixes of explored ones were judged)", depth))
+			}
+			return
+		}
 		if len(ops) > 0 && !sinceRec {
 			// a sequence is executed when it ends in a reconcile (every prefix ending in one is its own sequence)
 			c15recExec(res, c15recCase{Ops: ops, Readable: readable})
@@ -342,7 +354,16 @@ func TestVerif_C15rec(t *testing.T) {
 			rec(append(append([]c15recOp{}, ops...), c15recOp{Kind: "reconcile"}), append(append([]string{}, readable...), "reconcile"), open, false)
 		}
 	}
-	rec(nil, nil, map[int]bool{}, false)
+	completed := 0
+	for _, d := range depths {
+		depth, work = d, 0
+		rec(nil, nil, map[int]bool{}, false)
+		if cut {
+			break
+		}
+		completed = d
+	}
+	res.Info["max_session_operations_completed"] = completed
 	res.Info["max_session_operations"] = depth
 	res.Count("traces_validated_against_impl", res.Counters["evaluations"])
 }
